@@ -15,7 +15,10 @@ HELPERS = [
     ("def", "fresh", [("p", "[int...]")], "[int...]", [("assign", "q", ("mcall", V("p"), "clone", [])), ("setindex", V("q"), 0, I(99)), ("return", V("q"))]),
     ("def", "same", [("p", "[int...]")], "[int...]", [("return", V("p"))]),
 ]
+HELPERS.append(("def", "setk", [("m", "map[str, int]"), ("v", "int")], "int", [("msetindex", V("m"), ("str", "k"), V("v")), ("return", ("mcall", V("m"), "len", []))]))
 NAMES = ["a", "b", "c", "d"]
+S = lambda x: ("str", x)
+KEYS = ["a", "b", "k", "z"]
 
 
 def arg(rnd):
@@ -25,10 +28,16 @@ def arg(rnd):
 def history(rnd, length):
     live = ["a", "b"]
     out = [("assign", "a", ("list", [V("in0"), V("in1"), I(3)]), "[int...]"), ("assign", "b", V("a")), ("assign", "i1", I(1)),
-           ("assign", "nest", ("list", [V("a"), ("list", [I(7), V("in2")])]), "[[int...]...]")]
+           ("assign", "nest", ("list", [V("a"), ("list", [I(7), V("in2")])]), "[[int...]...]"),
+           ("assign", "ma", ("map", "str", "int", [(S("a"), V("in0")), (S("b"), V("in1"))])), ("assign", "mb", V("ma")),
+           ("assign", "mc", ("mcall", V("ma"), "clone", []))]
+    maps = ["ma", "mb", "mc"]
     for _ in range(length):
         k = rnd.choice(["set", "set", "setvar", "op", "push", "len", "print", "printel", "alias", "clone", "join", "bump", "fresh", "same",
-                        "is", "eq", "nest_set", "nest_read", "remove", "reverse", "symidx", "clone_push_eq", "lit_from_elems", "nest_chain"])
+                        "is", "eq", "nest_set", "nest_read", "remove", "reverse", "symidx", "clone_push_eq", "lit_from_elems", "nest_chain",
+                        "mset", "mset", "mop", "mread", "mread", "mlen", "mcontains", "mremove", "mreplace", "mclear", "msetk", "mlit_from_elems"])
+        mx = V(rnd.choice(maps))
+        key = S(rnd.choice(KEYS))
         x = V(rnd.choice(live))
         y = V(rnd.choice(live))
         if k == "set":
@@ -60,6 +69,28 @@ def history(rnd, length):
             out.append(("print", ("is", x, y)))
         elif k == "eq":
             out.append(("print", B("==", x, y)))
+        elif k == "mset":
+            out.append(("msetindex", mx, key, arg(rnd)))
+        elif k == "mop":
+            out += [("msetindex", mx, key, arg(rnd)), ("mopindex", mx, key, rnd.choice("+-"), arg(rnd))]
+        elif k == "mread":
+            out.append(("print", ("mindex", mx, key)))
+        elif k == "mlen":
+            out.append(("print", ("mcall", mx, "len", [])))
+        elif k == "mcontains":
+            out.append(("print", ("mcall", mx, "contains_key", [key])))
+        elif k == "mremove":
+            out.append(("print", ("mcall", mx, "remove", [key])))
+        elif k == "mreplace":
+            out.append(("print", ("mcall", mx, "replace", [key, arg(rnd)])))
+        elif k == "mclear":
+            out.append(("expr", ("mcall", mx, "clear", [])))
+        elif k == "msetk":
+            out.append(("print", ("call", "setk", [mx, arg(rnd)])))
+        elif k == "mlit_from_elems":
+            # a map literal built from list elements holds VALUES
+            out += [("assign", "mq", ("map", "str", "int", [(S("x"), ("index", x, 0)), (S("y"), arg(rnd))])), ("setindex", x, 0, arg(rnd)),
+                    ("print", ("mindex", V("mq"), S("x"))), ("msetindex", V("mq"), S("x"), I(55)), ("print", ("index", x, 0))]
         elif k == "clone_push_eq":
             # two lists that agree on the common prefix but differ in length
             out += [("assign", "tq", ("mcall", x, "clone", []), "[int...]"), ("expr", ("mcall", V("tq"), "push", [arg(rnd)])),
@@ -86,6 +117,10 @@ def history(rnd, length):
     for n in live:
         out.append(("print", V(n)))
     out.append(("print", V("nest")))
+    for m in maps:
+        out.append(("print", ("mcall", V(m), "len", [])))
+        for kk in KEYS:
+            out.append(("print", ("mindex", V(m), S(kk))))
     out.append(("print", ("str", "end")))
     return out
 
